@@ -19,6 +19,8 @@ def obligations(tier, seed):
     for n in ns:
         add("c02_fwd_n%d" % n, covers=3, desc="forward search: smallest r, aggregate shown = in-order merge of [l, r'], pending modifiers everywhere", bounds="n=%d" % n)
         add("c02_bwd_n%d" % n, covers=3, desc="backward search: largest l", bounds="n=%d" % n)
+    for h in ("c02_hist_fwd_n4", "c02_hist_bwd_n4", "c02_hist_fwd_n5"):
+        add(h, desc="search after two overlapping range modifications on top of an arbitrary lazy state", bounds=h[-2:])
     add("c02_sumadd_fwd_n5", covers=1, desc="SumAdd<i16> threshold search with pending adds", bounds="n=5")
     add("c02_sumadd_bwd_n5", covers=1, desc="SumAdd<i16> threshold search (reverse)", bounds="n=5")
     add("c02_twin_false", expect="fail", desc="deliberately false twin")
